@@ -14,6 +14,12 @@ R40c  declared attributes (parsed from the source item): #[dust_dds(key)] -> is_
       id = N -> that id, extensibility -> ExtensibilityKind (default FINAL), nested -> is_nested, name = ".." -> descriptor name
 R40d  unions: every discriminator value create_dynamic_sample writes for a variant is a label of that variant's member in TYPE, the
       member id stored is that member's id, and create_sample's match selects the same member for that label
+R40e  union variants: `case = N` is one of the member's labels and #[dust_dds(default)] <=> is_default_label, for named, tuple and
+      unit variants alike
+Besides the instances inside the crates, the same rules run over `fixtures/derive_cases` — a crate of declarations that covers the
+attribute combinations the crates themselves do not use (mutable tuple structs with explicit ids, unit default variants, @hashid,
+non_serialized, renamed and raw-identifier members) and is compiled against /repo's current macro on every run; if a declaration of
+the documented language no longer compiles, the check fails closed.
 """
 import os, re
 from vplib import expr as E
@@ -80,9 +86,9 @@ def ids_in_calls(fc, method, argi):
     return out
 
 
-def source_item(file, line):
+def source_item(file, line, root=None):
     """text of the struct / enum item declared at file:line including its leading attributes; None if unreadable"""
-    p = os.path.join(REPO, file)
+    p = os.path.join(root or REPO, file)
     try:
         L = open(p).read().split("\n")
     except OSError:
@@ -128,7 +134,18 @@ def parse_struct_fields(text):
 
 
 def run(ctx, rep):
-    fx = ctx.facts
+    # 1. every derive instance inside the analysed crates
+    check_instances(ctx.facts, rep, REPO, lambda f: f.startswith("dds/"), (120, 100, 8), "")
+    # 2. the declarations of fixtures/derive_cases, compiled against /repo's current macro: attribute combinations the crates
+    #    themselves do not use (tuple structs with explicit ids, unit default variants, hashid, non_serialized, renamed types)
+    from vplib import extract, facts as F
+    p = extract.facts_for_derive_cases()
+    dfx = F.load_facts([p])
+    root = os.path.join(os.path.dirname(os.path.dirname(os.path.abspath(__file__))), "fixtures", "derive_cases")
+    check_instances(dfx, rep, root, lambda f: True, (12, 8, 3), "derive_cases: ")
+
+
+def check_instances(fx, rep, root, file_ok, floors, tag):
     types = {}
     for b in fx.bodies.values():
         if b.kind.startswith("AssocConst") and b.sname.endswith("::TYPE") and "type_support::Type>" in b.sname:
@@ -137,10 +154,13 @@ def run(ctx, rep):
     for b in fx.bodies.values():
         if b.item_name == "create_sample" and b.is_fn_like() and "::tests::" not in b.sname and b.impl_self in types:
             fc = FnCtx(b)
-            if any(t.exp and any(str(x).startswith("dust_dds_derive::") for x in t.exp) for bb, t in fc.mir.calls()) or \
-                    any(s.exp and any(str(x).startswith("dust_dds_derive::") for x in (s.exp if isinstance(s.exp, list) else [s.exp])) for bb, i, s in fc.mir.stmts() if getattr(s, "exp", None)):
+            def is_derive(x):
+                x = str(x)
+                return x.startswith("dust_dds_derive::") or x.endswith("type_support::DdsType") or x.endswith("type_support::TypeSupport")
+            if any(t.exp and any(is_derive(x) for x in t.exp) for bb, t in fc.mir.calls()) or \
+                    any(s.exp and any(is_derive(x) for x in (s.exp if isinstance(s.exp, list) else [s.exp])) for bb, i, s in fc.mir.stmts() if getattr(s, "exp", None)):
                 derived.append((b, fc))
-    rep.floor("R40a", len(derived), 120, "derive instances (create_sample generated by dust_dds_derive)")
+    rep.floor("R40a" + ("@cases" if tag else ""), len(derived), floors[0], tag + "derive instances (create_sample generated by dust_dds_derive)")
     attr_count = {"key": 0, "optional": 0, "id": 0, "extensibility": 0, "nested": 0, "name": 0, "union": 0}
     n_struct = n_union = 0
     for b, fc in sorted(derived, key=lambda x: x[0].sname):
@@ -193,8 +213,8 @@ def run(ctx, rep):
                     "mismatches %s; fields read %s, written %s" % (bad, sorted(bind_r), sorted(bind_w)))
             # R40c source attributes
             a = [x for x in fx.adts.values() if x["name"] == tname]
-            if len(a) == 1 and a[0].get("file", "").startswith("dds/"):
-                text = source_item(a[0]["file"], a[0]["line"])
+            if len(a) == 1 and file_ok(a[0].get("file", "")):
+                text = source_item(a[0]["file"], a[0]["line"], root)
                 fields = parse_struct_fields(text) if text else None
                 if fields:
                     hm0 = re.search(r"^\s*(?:pub(?:\([^)]*\))?\s+)?struct\s+%s\b" % re.escape(short), text, re.M)
@@ -229,6 +249,13 @@ def run(ctx, rep):
                         attr_count["optional"] += 1 if opt else 0
                         if opt:
                             add("R40c", "%s.%s: is_optional reflects #[dust_dds(optional)]" % (short, fname), bool(m.get("is_optional")), "declared optional, TYPE says %s" % m.get("is_optional"))
+                        if re.search(r"dust_dds\([^)]*\bhashid\b", attrs):
+                            import hashlib, struct
+                            attr_count["hashid"] = attr_count.get("hashid", 0) + 1
+                            want_id = struct.unpack("<I", hashlib.md5(fname.encode()).digest()[:4])[0] & 0x0FFFFFFF
+                            add("R40c", "%s.%s: @hashid id = first 4 bytes (LE) of md5(name) & 0x0FFFFFFF" % (short, fname), m.get("id") == want_id,
+                                "declared hashid: DDS-XTypes 7.3.1.2.1.1 gives 0x%08x, TYPE says %s — an id above 28 bits does not fit the EMHEADER member id, so a mutable member written under it is not found again by the reader"
+                                % (want_id, ("0x%08x" % m.get("id")) if isinstance(m.get("id"), int) else m.get("id")))
                         im = re.search(r"dust_dds\([^)]*\bid\s*=\s*([\w:]+)", attrs)
                         if im and im.group(1).isdigit():
                             attr_count["id"] += 1
@@ -260,9 +287,37 @@ def run(ctx, rep):
                 elif dv is not None and dv not in (m.get("label") or []) and not m.get("is_default_label"):
                     bad.append("variant %s is written with discriminator %s but its labels are %s" % (m.get("name"), dv, m.get("label")))
             add("R40d", "%s: every variant is written with one of its own labels and its own member id" % short, not bad and bool(members), "; ".join(bad)[:300])
+            # R40e: the variants' attributes as written in the source
+            a = [x for x in fx.adts.values() if x["name"] == tname]
+            if len(a) == 1 and file_ok(a[0].get("file", "")):
+                text = source_item(a[0]["file"], a[0]["line"], root)
+                vm = re.search(r"enum\s+%s\b[^{]*\{(.*)\}\s*$" % re.escape(short), text or "", re.S)
+                if vm:
+                    attrs = ""
+                    depth = 0
+                    mem = {m.get("name"): m for m in members}
+                    for raw in vm.group(1).split("\n"):
+                        ln = raw.strip()
+                        if depth == 0 and ln.startswith("#["):
+                            attrs += ln
+                        elif depth == 0 and re.match(r"[A-Z]\w*", ln):
+                            vname = re.match(r"([A-Z]\w*)", ln).group(1)
+                            m = mem.get(vname)
+                            if m is not None:
+                                dflt = bool(re.search(r"dust_dds\([^)]*\bdefault\b", attrs))
+                                add("R40e", "%s::%s: is_default_label reflects #[dust_dds(default)]" % (short, vname), bool(m.get("is_default_label")) == dflt,
+                                    "declared default=%s, TYPE says %s: a received discriminator outside every case list %s" % (dflt, m.get("is_default_label"), "is rejected instead of selecting this variant" if dflt else "would select this variant"))
+                                cm = re.search(r"case\s*=\s*(-?\d+)", attrs)
+                                if cm:
+                                    add("R40e", "%s::%s: case label is described" % (short, vname), int(cm.group(1)) in (m.get("label") or []),
+                                        "declared case=%s, TYPE labels %s" % (cm.group(1), m.get("label")))
+                            else:
+                                add("R40e", "%s::%s is described in TYPE" % (short, vname), False, "no member of that name (names: %s)" % sorted(map(str, mem)))
+                            attrs = ""
+                        depth += ln.count("{") + ln.count("(") - ln.count("}") - ln.count(")")
             rd = {i for i, bb, t in ids_in_calls(fc, "remove_value", 1)}
             add("R40d", "%s: create_sample reads the discriminator and only described member ids" % short, 0 in rd and (rd - {0}) <= set(type_ids),
                 "reads %s, described %s" % (sorted(map(str, rd)), sorted(map(str, type_ids))))
-    rep.floor("R40a", n_struct, 100, "derived structures")
-    rep.floor("R40d", n_union, 8, "derived unions")
-    rep.extra["attribute_instances"] = attr_count
+    rep.floor("R40a" + ("@cases" if tag else ""), n_struct, floors[1], tag + "derived structures")
+    rep.floor("R40d" + ("@cases" if tag else ""), n_union, floors[2], tag + "derived unions")
+    rep.extra["attribute_instances" + ("_derive_cases" if tag else "")] = attr_count
